@@ -261,6 +261,23 @@ def run_batch(ctx, exe, drv, cases, kind):
 
 def judge(ctx, exe, kind, filters, hl, exp, iout):
     for f, line, e, io in zip(filters, hl, exp, iout):
+        if io == "SKIPPED":
+            ctx.count("sequences skipped after three stuck cases in one harness process")
+            continue
+        if io.startswith("STUCK"):
+            # every operation of a sequence is bounded (Nonblock, 1 ms, tiny, or the 2 s stand-in); a case that
+            # does not finish within its deadline is re-run alone with a longer one before it counts
+            ctx.count("cases that exceeded their deadline")
+            if ctx.extra.get("stuck_reruns", 0) >= 2:
+                continue
+            ctx.extra["stuck_reruns"] = ctx.extra.get("stuck_reruns", 0) + 1
+            rc, again, _ = vlib.run_lines(exe, [], [line], timeout=200, env={"C14_CASE_MS": "60000"})
+            io = again[0] if rc == 0 and len(again) == 1 else "STUCK|"
+            if io.startswith("STUCK"):
+                ctx.disagreements_checked += 1
+                ctx.violation("an RpcConn operation never returned (sequence not finished after 60 s) although all its operations are bounded",
+                              {"line": line, "impl": io, "model": e})
+                continue
         if "HANG|" in io:
             # a wait with the 2 s stand-in for Infinite timed out although the model says its message is there:
             # before that counts, the sequence runs once more, alone, with a 20 s deadline
